@@ -30,7 +30,7 @@ MODELS = {
     "tinyjambu_clean": {"zero": (0, 1)},
     "tinyjambu_hkdf_extract": {},
     "tinyjambu_hkdf_expand": {},
-    "tinyjambu_prng_reseed": {},
+    "tinyjambu_prng_reseed": {"havoc": 0},
     "tinyjambu_prng_init_user": {},
     "tinyjambu_trng_generate": {"out": (0, 32, "TRNG")},
 }
@@ -73,6 +73,14 @@ class Handler:
             lc = ex.subst(p, args[li]).const() if not is_word(args[li]) else None
             if lc:
                 ex.store(p, args[pi], gf2.const_word(0, 8) * lc if False else [gf2.ZERO] * (8 * lc), lc, None)
+        if "havoc" in m:
+            ob_, of_ = ex.subst(p, args[m["havoc"]]).base()
+            if ob_ is not None:
+                p.objgen[ob_] = p.objgen.get(ob_, 0) + 1
+                for key in [kk for kk in p.mem if kk[0] == ob_]:
+                    del p.mem[key]
+                for key in [kk for kk in p.lfmem if kk[0] == ob_]:
+                    del p.lfmem[key]
         if name in ("tinyjambu_hkdf_expand", "tinyjambu_prng_reseed", "tinyjambu_prng_init_user"):
             return Lf.s(("ret", n))
         return None
@@ -660,3 +668,312 @@ def _pb_tail(c, f, ex, p, after, outs, tb, T, cur, rem, pcur, remphi, bnphi, BN,
         okw = all(tuple(outs.get((cur, i), ())) == tb[i] for i in range(r))
         c("BLOCKS", okw, "last-block-bytes(%s)" % r, "the bytes written are T[0..%d)" % r, "last block bytes are not the first %d bytes of T" % r)
     return 3
+
+
+# ---------------------------------------------------------------------------
+# PRNG (Hash_DRBG of SP 800-90A 10.1.1 over TinyJAMBU-Hash as documented in tinyjambu-prng.c)
+
+def _cbytes(vals):
+    return tuple(tuple(gf2.const_word(v, 8)) for v in vals)
+
+
+def check_df(c, ev, k, marker, vbytes, inptr, inlen, outptr, indata, tag, ST):
+    """Hash_df: init; update(header {1,0,0,1,0[,marker]}); update(V,32); update(in,inlen); finalize(out); free.  Returns (next index, digest event)"""
+    if len(ev) < k + 6:
+        c("SEQ", False, "%s-df" % tag, "", "Hash_df call sequence incomplete: %s" % [e[2] for e in ev[k:]])
+        return None
+    e = ev[k:k + 6]
+    names = [x[2] for x in e]
+    want = ["tinyjambu_hash_init", "tinyjambu_hash_update", "tinyjambu_hash_update", "tinyjambu_hash_update", "tinyjambu_hash_finalize", "tinyjambu_hash_free"]
+    if names != want:
+        c("SEQ", False, "%s-df" % tag, "", "Hash_df is %s, expected %s" % (names, want))
+        return None
+    h = e[0][3][0]
+    hdr = _cbytes([1, 0, 0, 1, 0] + ([] if marker == 0xFF else [marker]))
+    okh = e[1][3][0] == h and e[1][4] == hdr and e[1][3][2] == str(len(hdr))
+    c("SEQ", okh, "%s-header" % tag, "Hash_df header: counter 1, 256 bits to return%s" % ("" if marker == 0xFF else ", marker 0x%02X" % marker),
+      "Hash_df header bytes are %s (length %s), expected %s" % (None if e[1][4] is None else [gf2.is_const(list(b)) for b in e[1][4]], e[1][3][2], [1, 0, 0, 1, 0] + ([] if marker == 0xFF else [marker])))
+    okv = e[2][3] == (h, repr(Lf.s(ST)), "32") and (vbytes is None or e[2][4] == vbytes)
+    c("DEP", okv, "%s-V" % tag, "all 32 bytes of V are hashed in", "the working value V is not absorbed as specified: %s, %s" % (e[2][3], first_byte_diff(e[2][4], vbytes) if vbytes is not None else ""))
+    oki = e[3][3][0] == h and e[3][3][1] == inptr and e[3][3][2] == inlen and (indata is None or e[3][4] == indata)
+    c("DEP", oki, "%s-input" % tag, "then the additional input (%s, %s)" % (inptr, inlen), "additional input differs: %s (expected %s, %s) %s" % (e[3][3], inptr, inlen, first_byte_diff(e[3][4], indata) if indata is not None else ""))
+    okf = e[4][3] == (h, outptr) and e[5][3] == (h,) and h.startswith("alloca")
+    c("SEQ", okf, "%s-out" % tag, "digest -> %s; hash state freed" % outptr, "Hash_df output goes to %s (expected %s)" % (e[4][3], outptr))
+    return k + 6, e[4]
+
+
+def check_prng(ck_ob, mod, label):
+    ST = ("arg", 0)
+    fld = {m["name"]: m for m in mod.composites["tinyjambu_prng_state_p_t"]["members"]}
+    V, C, CNT, LIM = fld["V"]["offset"], fld["C"]["offset"], fld["reseed_counter"]["offset"], fld["reseed_limit"]["offset"]
+    if (fld["V"]["size"], fld["C"]["size"], V) != (32, 32, 0):
+        raise Broken("PRNG private state layout changed")
+    icells = lambda ob, off, n: ob == ST and (off, n) in ((CNT, 4), (LIM, 4))
+    CP = repr(Lf({ST: 1, 1: C}))
+    VP = repr(Lf.s(ST))
+    n = 0
+
+    def mk(fname):
+        f = mod.fn(fname)
+        ex = irx.Exec(f, Handler(), havoc="auto", auto=True, split_max=32, int_cells=icells)
+        ps = ex.run(max_paths=3000)
+        no_data_branches(f, ps)
+        w0 = relpath("%s:%d" % (f.file, f.line))
+
+        def c(rule, cond, construct, ok_, bad_, where=None):
+            return ck_ob(cond, rule, f.name, "%s[%s]" % (construct, label), ok_, bad_, where or w0)
+        return f, ex, ps, c
+    # ---- instantiate
+    f, ex, ps, c = mk("tinyjambu_prng_init_user")
+    for p in ps:
+        ev = calls(p)
+        tag = "init(%s)" % ("cb" if p.eqs.get(("arg", 1)) is None else "null")
+        if not ev or ev[0][2] != "<callback>":
+            c("SEQ", False, tag + "-entropy", "", "instantiate does not start with the entropy request: %s" % [e[2] for e in ev[:2]])
+            continue
+        cb = ev[0]
+        ent = bytes_sym("ENTROPY", cb[1], 32)
+        c("SEQ", cb[3][1] == VP and cb[3][2] == "32", tag + "-entropy", "32 bytes of entropy requested into V", "entropy request is %s" % (cb[3],))
+        r = check_df(c, ev, 1, 0xFF, ent, repr(Lf.s(("arg", 3))), repr(Lf.s(("n", 4))), VP, None, tag + "-V", ST)
+        if r:
+            k, fin = r
+            r2 = check_df(c, ev, k, 0x00, bytes_sym("DIGEST", fin[1], 32), "0", "0", CP, None, tag + "-C", ST)
+            if r2:
+                c("SEQ", len(ev) == r2[0], tag + "-nothing-more", "nothing else is hashed", "extra calls: %s" % [e[2] for e in ev[r2[0]:]])
+        c("SEQ", p.lfmem.get((ST, CNT, 4)) == Lf.c(1), tag + "-counter", "reseed_counter = 1", "reseed_counter after instantiate is %s" % p.lfmem.get((ST, CNT, 4)))
+        n += 8
+    # ---- reseed
+    f, ex, ps, c = mk("tinyjambu_prng_reseed")
+    vold = inbytes(ST, 32, V)
+    for p in ps:
+        ev = calls(p)
+        if not ev or ev[0][2] != "<callback>":
+            c("SEQ", False, "reseed-entropy", "", "reseed does not start with the entropy request")
+            continue
+        cb = ev[0]
+        ent = bytes_sym("ENTROPY", cb[1], 32)
+        c("SEQ", cb[3][1] == CP and cb[3][2] == "32", "reseed-entropy", "32 bytes of entropy requested into C", "entropy request is %s" % (cb[3],))
+        r = check_df(c, ev, 1, 0x01, vold, CP, "32", VP, ent, "reseed-V", ST)
+        if r:
+            r2 = check_df(c, ev, r[0], 0x00, bytes_sym("DIGEST", r[1][1], 32), "0", "0", CP, None, "reseed-C", ST)
+        c("SEQ", p.lfmem.get((ST, CNT, 4)) == Lf.c(1), "reseed-counter", "reseed_counter = 1", "reseed_counter after reseed is %s" % p.lfmem.get((ST, CNT, 4)))
+        n += 8
+    # ---- feed
+    f, ex, ps, c = mk("tinyjambu_prng_feed")
+    for p in ps:
+        ev = calls(p)
+        r = check_df(c, ev, 0, 0x01, vold, repr(Lf.s(("arg", 1))), repr(Lf.s(("n", 2))), VP, None, "feed-V", ST)
+        if r:
+            check_df(c, ev, r[0], 0x00, bytes_sym("DIGEST", r[1][1], 32), "0", "0", CP, None, "feed-C", ST)
+        cnt0 = Lf.s(("fld", ST, CNT, 0))
+        c("SEQ", p.lfmem.get((ST, CNT, 4)) == cnt0.add(Lf.c(1)), "feed-counter", "reseed_counter + 1", "reseed_counter after feed is %s" % p.lfmem.get((ST, CNT, 4)))
+        n += 7
+    # ---- generate: generic block
+    f, ex, ps, c = mk("tinyjambu_prng_generate")
+    if not f.loops:
+        raise Broken("tinyjambu_prng_generate has no loop")
+    seen = set()
+    import random
+    rnd = random.Random(20261003)
+    for p in ps:
+        ev = calls(p)
+        names = [e[2] for e in ev]
+        if "tinyjambu_hash" not in names:
+            continue
+        k = 0
+        reseeded = names[0] == "tinyjambu_prng_reseed"
+        if reseeded:
+            k = 1
+        seen.add("reseed" if reseeded else "plain")
+        g = p.objgen.get(ST, 0)
+        want = ["tinyjambu_hash", "tinyjambu_hash_init", "tinyjambu_hash_update", "tinyjambu_hash_update", "tinyjambu_hash_finalize", "tinyjambu_hash_free"]
+        if names[k:k + 6] != want:
+            c("SEQ", False, "block-sequence", "", "block generation is %s, expected %s" % (names[k:k + 6], want))
+            continue
+        e = ev[k:k + 6]
+        vcur = e[0][4]
+        okv = e[0][3][1] == VP and e[0][3][2] == "32" and vcur is not None and e[0][3][0].startswith("alloca")
+        c("SEQ", okv, "block-output-hash", "output block = Hash(V) over all 32 bytes of V", "output hash is %s" % (e[0][3],))
+        Hobj, Hoff = _objoff(e[0][3][0])
+        dig = bytes_sym("DIGEST", e[0][1], 32)
+        # emitted bytes
+        outs = mode.outs_of(p)
+        curs = {k_[0] for k_ in outs if k_[0][0] in ("hdp", "arg") and k_[0] != ST}
+        ln = None
+        okb = False
+        for ob in curs:
+            offs = sorted(k_[1] for k_ in outs if k_[0] == ob)
+            ln = len(offs)
+            okb = offs == list(range(ln)) and all(tuple(outs[(ob, i)]) == dig[i] for i in range(ln)) and 1 <= ln <= 32
+        c("SEQ", okb and len(curs) == 1, "block-emit(%s)" % ln, "the first %s bytes of Hash(V) are emitted at the output cursor" % ln, "emitted bytes are not Hash(V)[0..len): objects %s" % sorted(curs, key=repr))
+        okp = e[2][3][2] == "1" and e[2][4] == _cbytes([3]) and e[3][3][1] == VP and e[3][3][2] == "32" and e[3][4] == vcur and e[4][3][1] == e[0][3][0] and e[1][3][0] == e[5][3][0]
+        c("SEQ", okp, "block-advance-hash", "H = Hash(0x03 || V) over the same V", "state-advance hash differs: prefix %s, V %s -> %s" % (e[2][4] and [gf2.is_const(list(b)) for b in e[2][4]], e[3][3], e[4][3]))
+        hp = bytes_sym("DIGEST", e[4][1], 32)
+        # V' = V + H + C + counter (256-bit big-endian): support sets + evaluation on corner / random assignments
+        vnew = [p.mem.get((ST, V + i)) for i in range(32)]
+        cbytes_ = [hashbyte(p, ST, C + i) if (ST, C + i) not in p.mem else p.mem[(ST, C + i)] for i in range(32)]
+        cnt_l = p.start_lfmem.get((ST, CNT, 4)) if not reseeded else None
+        cnt_sym = ("fld", ST, CNT, g) if reseeded or cnt_l is None else None
+        cntw = ex.word(Lf.s(("fld", ST, CNT, g)) if (reseeded or cnt_l is None) else cnt_l, 32, p)
+        if any(v_ is None or any(b is gf2.TOP for b in v_) for v_ in vnew):
+            raise Broken("tinyjambu_prng_generate: the new V is not representable (arithmetic outside the domain)")
+        okadd, wit = _check_be_add(vnew, [list(b) for b in vcur], [list(b) for b in hp], [list(b) for b in cbytes_], cntw, rnd)
+        c("DEP", okadd, "block-add", "V' = V + Hash(3||V) + C + reseed_counter as a 256-bit big-endian sum (support sets exact; evaluated on carry-chain corner cases and random assignments, reseed_counter < 2^31: the 32-bit carry of the implementation is exact there and R-C16 bounds the counter by the limit)",
+          "the state advance is not V + H + C + counter (mod 2^256, big-endian): %s" % wit)
+        cnt0 = Lf.s(("fld", ST, CNT, g)) if (reseeded or cnt_l is None) else cnt_l
+        c("SEQ", p.lfmem.get((ST, CNT, 4)) == ex.subst(p, cnt0).add(Lf.c(1)), "block-counter", "reseed_counter + 1 after every block", "reseed_counter after a block is %s" % p.lfmem.get((ST, CNT, 4)))
+        okc = all((ST, C + i) not in p.mem or p.mem[(ST, C + i)] == p.start_mem.get((ST, C + i), p.mem[(ST, C + i)]) for i in range(32))
+        c("DEP", okc, "block-C", "C is not modified by generate", "generate modifies C")
+        n += 6
+    c("SEQ", {"plain", "reseed"} <= seen, "generate-classes", "the per-block iteration exists both with and without the automatic reseed", "the per-block iteration of generate has only the class(es) %s: the automatic reseed is not decided per block" % sorted(seen))
+    # ---- plain init is init_user(system source)
+    g_ = mod.fn("tinyjambu_prng_init")
+    ex2 = irx.Exec(g_, Handler(), havoc="auto", auto=True)
+    ps2 = ex2.run()
+    ev = calls(ps2[0]) if len(ps2) == 1 else []
+    ck_ob(len(ev) == 1 and ev[0][2] == "tinyjambu_prng_init_user" and ev[0][3][0] == VP and ev[0][3][2] == "0" and ev[0][3][3:] == (repr(Lf.s(("arg", 1))), repr(Lf.s(("n", 2)))),
+          "SEQ", g_.name, "plain-init[%s]" % label, "prng_init = init_user(state, system source, NULL, custom, custom_len)", "prng_init is %s" % [(e[2], e[3]) for e in ev], relpath("%s:%d" % (g_.file, g_.line)))
+    return n + 2
+
+
+def _check_be_add(vnew, v, h, cc, cntw, rnd):
+    """vnew[i] (i = 0 most significant) must be byte i of (V + H + C + counter) mod 2^256"""
+    syms = set()
+
+    smemo = {}
+    vidx = {}
+    vrev = []
+
+    def suppm(bit):
+        r = smemo.get(id(bit))
+        if r is not None:
+            return r[1]
+        out = 0
+        for a in bit:
+            if a[0] == "v":
+                k = (a[1], a[2])
+                ix = vidx.get(k)
+                if ix is None:
+                    ix = vidx[k] = len(vrev)
+                    vrev.append(k)
+                out |= 1 << ix
+            elif a[0] in ("&", "|"):
+                ra = smemo.get(id(a))
+                if ra is None:
+                    sa = 0
+                    for part in a[1]:
+                        sa |= suppm(part)
+                    ra = (a, sa)
+                    smemo[id(a)] = ra
+                out |= ra[1]
+        smemo[id(bit)] = (bit, out)
+        return out
+
+    def supp(bit):
+        m_ = suppm(bit)
+        out = set()
+        i_ = 0
+        while m_:
+            if m_ & 1:
+                out.add(vrev[i_])
+            m_ >>= 1
+            i_ += 1
+        return out
+
+    def collect(bit, acc):
+        acc |= supp(bit)
+    allbits = []
+    for group in (v, h, cc):
+        for i, byte in enumerate(group):
+            for j, b in enumerate(byte):
+                acc = set()
+                collect(b, acc)
+                if len(acc) != 1:
+                    return False, "operand byte %d is not a plain symbol" % i
+                allbits.append(next(iter(acc)))
+    cb = []
+    for b in cntw:
+        acc = set()
+        collect(b, acc)
+        cb.append(next(iter(acc)) if len(acc) == 1 else None)
+    # support sets (bit masks over the variables)
+    own = []
+    for i in range(32):
+        must = 0
+        for grp in (v, h, cc):
+            for b in grp[i]:
+                must |= suppm(b)
+        own.append(must)
+    suffix = [0] * 33
+    for i in range(31, -1, -1):
+        suffix[i] = suffix[i + 1] | own[i]
+    cbs = 0
+    for x in cb:
+        if x:
+            if x not in vidx:
+                vidx[x] = len(vrev)
+                vrev.append(x)
+            cbs |= 1 << vidx[x]
+    for i in range(32):
+        acc = 0
+        for b in vnew[i]:
+            acc |= suppm(b)
+        allowed = suffix[i] | cbs
+        if acc & ~allowed:
+            bad = [vrev[j] for j in range(len(vrev)) if (acc & ~allowed) >> j & 1]
+            return False, "byte %d of the new V depends on %s, which is outside {V,H,C bytes %d..31, counter}" % (i, sorted(bad, key=repr)[:2], i)
+        if own[i] & ~acc:
+            return False, "byte %d of the new V does not depend on all of V[%d], H[%d], C[%d]" % (i, i, i, i)
+    # evaluation
+    def val_of(group, asg):
+        x = 0
+        for byte in group:
+            bv = 0
+            for j, b in enumerate(byte):
+                bv |= (gf2.evaluate(b, asg) or 0) << j
+            x = (x << 8) | bv
+        return x
+    vars_v = [[next(iter(_s(b))) for b in byte] for byte in v]
+    vars_h = [[next(iter(_s(b))) for b in byte] for byte in h]
+    vars_c = [[next(iter(_s(b))) for b in byte] for byte in cc]
+    cases = []
+    full = lambda: None
+    def asg_from(xv, xh, xc, xn):
+        asg = {}
+        for grp, x in ((vars_v, xv), (vars_h, xh), (vars_c, xc)):
+            for i, byte in enumerate(grp):
+                bv = (x >> (8 * (31 - i))) & 0xFF
+                for j, var in enumerate(byte):
+                    asg[var] = (bv >> j) & 1
+        for j, var in enumerate(cb):
+            if var:
+                asg[var] = (xn >> j) & 1
+        return asg
+    M = (1 << 256) - 1
+    corner = [(M, 0, 0, 1), (M, M, M, 0x7FFFFFFF), (0, 0, 0, 0), (M - 0xFF, 0xFF, 0, 1), (1 << 255, 1 << 255, 0, 0), (0x00FF00FF << 200, M >> 9, 12345, 33), (M, 1, 0, 0), (0, M, 1, 0)]
+    for _ in range(12):
+        corner.append((rnd.getrandbits(256), rnd.getrandbits(256), rnd.getrandbits(256), rnd.getrandbits(31)))
+    for (xv, xh, xc, xn) in corner:
+        asg = asg_from(xv, xh, xc, xn)
+        got = 0
+        memo = {}
+        for byte in vnew:
+            bv = 0
+            for j, b in enumerate(byte):
+                e_ = gf2.evaluate(b, asg, memo)
+                if e_ is None:
+                    return False, "value not evaluable"
+                bv |= e_ << j
+            got = (got << 8) | bv
+        want = (xv + xh + xc + xn) & M
+        if got != want:
+            return False, "for V=%#x.., H=%#x.., C=%#x.., counter=%d the new V is %#x.. instead of %#x.." % (xv >> 224, xh >> 224, xc >> 224, xn, got >> 224, want >> 224)
+    return True, None
+
+
+def _s(bit):
+    out = set()
+    for a in bit:
+        if a[0] == "v":
+            out.add((a[1], a[2]))
+    return out
